@@ -562,6 +562,10 @@ def run_program(prog):
         except BaseException as e:  # noqa
             import traceback
             cause = getattr(e, "cause", None)
+            if "ObservationTimeLimit" in repr(e) or "ObservationTimeLimit" in repr(cause):
+                # (the limit surfaced inside an oracle, wrapped in the oracle's own error)
+                out.append({"error": "domain: time limit of %d s" % OBS_LIMIT})
+                continue
             out.append({"error": (repr(e) + (" cause=" + repr(cause) if cause is not None else ""))[:400],
                         "tb": traceback.format_exc()[-600:]})
     return {"build_error": None, "obs": out}
